@@ -763,7 +763,7 @@ dim2id2iso_ideal_to_isogeny_clapotis(theta_chain_t *isog,
     // compute the valuation of the GCD of u,v
     ibz_gcd(&tmp, u, v);
     assert(ibz_get(&tmp) != 0);
-    int exp_gcd = two_adic_valuation(ibz_get(&tmp));
+    int exp_gcd = ibz_two_adic(&tmp);
     exp = TORSION_PLUS_EVEN_POWER - exp_gcd;
     // removing the power of 2 from u and v
     ibz_div(u, &test1, u, &tmp);
